@@ -1,9 +1,9 @@
 """property id -> rules, explanation of what is / is not decided"""
-from rules import r_hist, r_lock, r_errdrop, r_coord, r_keyid, r_opcode, r_doaction, r_cancel, r_idle, r_loop, r_traverse, r_repeat, r_chv2, r_wait, r_macro, r_seq, r_override, r_reload, r_pipeline, r_dynmacro, r_vkey, r_layers, r_panic, r_prodcons, r_span, r_rec, r_evict, r_coordspace, r_loopvar, r_depth, r_countdown, r_accessor, r_scratch, r_sticky, r_buildall
+from rules import r_hist, r_lock, r_errdrop, r_coord, r_keyid, r_opcode, r_doaction, r_cancel, r_idle, r_loop, r_traverse, r_repeat, r_chv2, r_wait, r_macro, r_seq, r_override, r_reload, r_pipeline, r_dynmacro, r_vkey, r_layers, r_panic, r_prodcons, r_span, r_rec, r_evict, r_coordspace, r_loopvar, r_depth, r_countdown, r_accessor, r_scratch, r_sticky, r_buildall, r_tickorder
 
 PROPS = {
     "C01": {
-        "rules": [r_coord.run, r_doaction.rule_state_push, r_cancel.run, r_cancel.rule_owed, r_chv2.rule_rel, r_evict.run, r_countdown.run],
+        "rules": [r_coord.run, r_doaction.rule_state_push, r_cancel.run, r_cancel.rule_owed, r_chv2.rule_rel, r_evict.run, r_countdown.run, r_tickorder.rule_wait_gate],
         "explanation": "Decides structural clauses of 'no stuck output': (R-COORD) every State variant created at a "
                        "coordinate is removable by Release at that coordinate and the three coordinate predicates agree; "
                        "(R-STATE-PUSH) arms of do_action that create coordinate-keyed state do so on every path and the custom "
@@ -11,7 +11,7 @@ PROPS = {
         "not_decided": "bounded-time liveness over all histories; diff logic prev_keys/cur_keys; timeout arithmetic",
     },
     "C02": {
-        "rules": [r_panic.run_rt, r_prodcons.run, r_rec.run_rt, r_coordspace.run, r_lock.run, r_opcode.run_all, r_loopvar.run_rt],
+        "rules": [r_panic.run_rt, r_prodcons.run, r_rec.run_rt, r_coordspace.run, r_lock.run, r_opcode.run_all, r_loopvar.run_rt, r_tickorder.rule_rpt_order, r_tickorder.rule_rpt_queue],
         "explanation": "Decides: (R-PANIC/rt) every panic-capable site (bounds check, slice/Vec index, unsigned subtraction, narrow "
                        "addition/multiplication, negation, division, shift, unwrap/expect, assert!/unreachable!/panic!) in the "
                        "functions reachable from the event/tick entry points is either discharged by the guard data-flow (constant "
@@ -63,7 +63,7 @@ PROPS = {
                        "millisecond — functions of run-time values",
     },
     "C05": {
-        "rules": [r_wait.run_all, r_evict.run_c05],
+        "rules": [r_wait.run_all, r_evict.run_c05, r_tickorder.rule_wait_gate, r_tickorder.rule_tick_together],
         "explanation": "Decides: (R-WAIT) each waiting_into_hold/tap/timeout clears its slot on every path before do_action (a "
                        "decision is consumed once) and performs an action whose provenance is exactly the hold / tap / "
                        "timeout_action field; Layout::tick and process_extra_waitings dispatch the four WaitingAction variants to "
@@ -97,7 +97,7 @@ PROPS = {
                        "output characters are trusted to the parser's character table",
     },
     "C07": {
-        "rules": [r_idle.run, r_idle.run_keytiming, r_loop.run, r_idle.run_states, r_scratch.run],
+        "rules": [r_idle.run, r_idle.run_keytiming, r_loop.run, r_idle.run_states, r_scratch.run, r_tickorder.rule_loop_ms],
         "explanation": "Decides: (R-IDLE) every (type, field) of kanata's run-time state that has a self-dependent scalar update "
                        "(counter/timer) or loses elements in a function reachable from Kanata::tick_ms is read as a whole by "
                        "is_idle / can_block_update_idle_waiting (transitively), is covered by a container those read, or is listed "
